@@ -964,7 +964,8 @@ def part_agg(chk, c2m, d, quick):
             open(src, 'w').write(small)
             r3, _ = reference_run(src, d, 'aggf', False)
             r4 = c2m_runs(c2m, src, d, False, [x for x in ENGINES if ename(x) == eng])
-            stmt = [l.strip() for l in small.split('\n') if l.startswith('  ') and re.search(r'\b(mk|mix|inc|pick|id|cvt|fp|fpm)_', l)]
+            stmt = [l.strip() for l in small.split('\n') if l.startswith('  ') and re.search(r'\b(mk|mix|inc|pick|id|cvt|fp|fpm)_', l)
+                    and not re.match(r'\s*(struct|union) A\d+ v_A\d+ = mk_A\d+ \(k \+ \d+u\);$', l) and not re.match(r'\s*g_A\d+ = mk_A\d+ \(5u\);', l)]
             chk.finding(sig, dict(kind='prog', program=small, original=text, use_ext=False, engines=[b[0] for b in bad[pid]],
                                   what=['%s: c2m prints `%s`' % b for b in bad[pid]], gcc=list(r3 or ref)),
                         'aggregate values in one full expression, `%s`: c2m %s prints `%s`, gcc `%s`'
